@@ -42,6 +42,18 @@ class Run:
             return v, P.extract_edb(m, edb_tables)
         return v, None
 
+    def witness(self, edb_tables, side, rows):
+        """Ask the solver for an EDB within the bounds on which `rows` is non-empty (>= 2 distinct rows if possible)."""
+        base = E.edb_constraints(edb_tables, VMAX) + list(side)
+        two = S.OR(*[S.AND(a.p, b.p, S.NOT(E.tup_eq(a.c, b.c))) for i, a in enumerate(rows) for b in rows[:i]])
+        for goal in (two, E.nonempty(rows)):
+            if goal is False:
+                continue
+            v, m = P.solve(base + [goal], min(5000, self.cfg["timeout_ms"]), self.stats)
+            if v == "sat":
+                return P.extract_edb(m, edb_tables)
+        return None
+
     def record(self, sample):
         if len(self.samples) < 12 or sample.get("verdict") not in ("unsat",):
             if len(self.samples) < 40:
@@ -204,11 +216,44 @@ def check_vs_reference(run, program, kind, configs, key_fn):
             run.skipped.append({"program": text, "config": P.cfg_str(cfg), "why": str(ex)})
             continue
         side = list(plan.conv) + list(ref_conv)
+        # solver-directed witness: an EDB on which the reference answer is non-empty (two rows if possible);
+        # the real engine must agree with the independent concrete evaluator on it
+        wit = run.witness(edb, side, ref)
+        if wit is not None:
+            got_w, err_w = run.engine_answer(case, wit)
+            try:
+                want_w = R.model_c(program, wit).get(program["query"], set())
+            except E.Unsupported:
+                want_w = None
+            if want_w is not None and (got_w is None or got_w != want_w):
+                key = key_fn(program, kind, rep, plan)
+                run.violation(key, f"engine answer differs from the stratified least model on a solver-chosen witness "
+                                   f"database: {text!r} cfg={P.cfg_str(cfg)}",
+                              {"property": run.prop, "engine": "P", "kind": "vs_reference", "program": text,
+                               "structure": program, "config": cfg, "workers": 1, "history": [], "edb": wit,
+                               "engine_answer": sorted(got_w) if got_w is not None else None, "engine_error": err_w,
+                               "expected": sorted(want_w)})
+                run.decided += 1
+                run.nontrivial += 1
+                run.record({"program": text, "configs": g["members"][:6], "verdict": "witness-differs", "edb": wit,
+                            "engine": sorted(got_w) if got_w is not None else err_w, "expected": sorted(want_w)})
+                continue
+            if want_w is not None:
+                try:
+                    inputs_w = dict(wit)
+                    inputs_w.update(P.seeds_of(rep, set(arities)))
+                    pred = E.concrete_set(E.run_script(rep["events"], P.concrete_tables(inputs_w), k).answer)
+                    run.stats.model_validations += 1
+                    if pred != got_w:
+                        run.stats.model_mismatches.append({"case": case.describe(), "edb": wit, "model": sorted(pred),
+                                                           "engine": sorted(got_w)})
+                except E.Unsupported as ex:
+                    run.stats.note_unsupported(str(ex))
         t0 = time.time()
         v, cex = run.compare(text, edb, plan.answer, ref, side, case.describe())
         ms = int((time.time() - t0) * 1000)
         sample = {"program": text, "configs": g["members"][:6], "rows": n, "k": k, "verdict": v, "solver_ms": ms,
-                  "strategies": plan.strategies}
+                  "strategies": plan.strategies, "witness_checked": wit is not None}
         if v == "unknown":
             run.skipped.append({"program": text, "config": P.cfg_str(cfg), "why": "solver timeout"})
             run.record(sample)
@@ -340,6 +385,31 @@ def check_pairwise(run, program, kind, cases, key, what):
         return
     base = groups[order[0]]
     pb = plans[order[0]]
+    # solver-directed witness: all cases must agree with the base case on the real engine
+    wit = run.witness(edb, list(pb.conv), pb.answer)
+    if wit is not None:
+        a0, e0 = run.engine_answer(base["case"], wit)
+        for sk in order[1:]:
+            g = groups[sk]
+            a1, e1 = run.engine_answer(g["case"], wit)
+            if a1 != a0:
+                kk = key(program, kind, base, g) if callable(key) else key
+                run.violation(kk, f"{what}: answers differ on a solver-chosen witness database for {text!r}: "
+                                  f"{base['members'][0]} vs {g['members'][0]}",
+                              {"property": run.prop, "engine": "P", "kind": "pairwise", "program": text,
+                               "a": base["case"].describe(), "b": g["case"].describe(),
+                               "a_text": base["case"].text, "b_text": g["case"].text,
+                               "a_cfg": base["case"].cfg, "b_cfg": g["case"].cfg,
+                               "a_workers": base["case"].workers, "b_workers": g["case"].workers,
+                               "a_history": base["case"].history, "b_history": g["case"].history,
+                               "edb": wit, "answer_a": sorted(a0) if a0 is not None else None,
+                               "answer_b": sorted(a1) if a1 is not None else None, "error_a": e0, "error_b": e1})
+                run.decided += 1
+                run.nontrivial += 1
+                run.record({"program": text, "verdict": "witness-differs", "edb": wit, "a": base["members"][:3],
+                            "b": g["members"][:3], "answer_a": sorted(a0) if a0 is not None else e0,
+                            "answer_b": sorted(a1) if a1 is not None else e1})
+                plans.pop(sk, None)
     for sk in order[1:]:
         if sk not in plans:
             continue
@@ -463,8 +533,11 @@ def run_c04(run):
         if changed:
             alt = _tuplify(alt)
             cases.append(P.Case(program, text, P.DEFAULT_CFG, history=[R.render(alt)], label="history=other-constant"))
-        check_pairwise(run, program, kind, cases, lambda pr, kd, b, g: "order-history-" + g["case"].label.split("(")[0].split("=")[0],
-                       "clause order / history")
+        def key(pr, kd, b, g):
+            comps, _, _ = R.sccs(pr)
+            shape = "mutual-recursion" if any(len(c) > 1 for c in comps) else kd
+            return "order-history-" + g["case"].label.split("(")[0].split("=")[0] + "-" + shape
+        check_pairwise(run, program, kind, cases, key, "clause order / history")
         prev_text = text
     return run.finish("translation_validation",
                       {"explanation": "the plan executed for a program is compared with the plans executed for its clause "
@@ -515,6 +588,19 @@ def check_rewrite(run, ir, label, passes, derived):
     except E.Unsupported as ex:
         run.stats.note_unsupported(str(ex))
         return
+    wit = run.witness(tables, [], before)
+    wit_before = None
+    if wit is not None:
+        rb = run.bridge.job({"job": "exec_ir", "ir": ir, "edb": wit})
+        wit_before = P.answer_set(rb["answer"]) if rb.get("ok") else None
+        try:
+            pred = E.concrete_set(E.distinct(E.PlanEval(P.concrete_tables(wit)).ev(ir)))
+            run.stats.model_validations += 1
+            if wit_before is not None and pred != wit_before:
+                run.stats.model_mismatches.append({"plan": label, "edb": wit, "model": sorted(pred),
+                                                   "engine": sorted(wit_before), "ir": ir})
+        except E.Unsupported as ex:
+            run.stats.note_unsupported(str(ex))
     for ps in passes:
         rep = run.bridge.job({"job": "rewrite", "ir": ir, "pass": ps, "derived": derived})
         if not rep.get("ok"):
@@ -544,6 +630,29 @@ def check_rewrite(run, ir, label, passes, derived):
         except E.Unsupported as ex:
             run.stats.note_unsupported(str(ex))
             continue
+        if wit is not None and wit_before is not None:
+            edb_w = dict(wit)
+            okv = True
+            for name in sorted(views):
+                rv = run.bridge.job({"job": "exec_ir", "ir": views[name], "edb": edb_w})
+                if not rv.get("ok"):
+                    okv = False
+                    break
+                edb_w[name] = rv["answer"]
+            ra = run.bridge.job({"job": "exec_ir", "ir": after_ir, "edb": edb_w}) if okv else {"ok": False}
+            wa = P.answer_set(ra["answer"]) if ra.get("ok") else None
+            run.stats.replayed += 1
+            if wa != wit_before:
+                run.decided += 1
+                run.nontrivial += 1
+                run.record({"plan_from": label, "pass": ps, "verdict": "witness-differs", "edb": wit,
+                            "before_answer": sorted(wit_before), "after_answer": sorted(wa) if wa is not None else ra.get("error")})
+                run.violation("pass-" + ps + "-" + top_shape(ir), f"pass {ps} changes the plan's meaning on a solver-chosen "
+                              f"witness database ({label})",
+                              {"property": run.prop, "engine": "P", "kind": "rewrite", "pass": ps, "before": ir,
+                               "after": after_ir, "views": views, "edb": wit, "before_answer": sorted(wit_before),
+                               "after_answer": sorted(wa) if wa is not None else None})
+                continue
         t0 = time.time()
         v, cex = run.compare(label, tables, after, before, [], label)
         ms = int((time.time() - t0) * 1000)
@@ -615,10 +724,20 @@ def run_c05(run):
             r3 = run.bridge.job({"job": "rewrite", "ir": ir, "pass": "specialize"})
             if r3.get("ok") and json.dumps(r3["ir"], sort_keys=True) != h:
                 check_rewrite(run, r3["ir"], f"{text!r} head {head} after specialize", ["optimize"], rep["heads"])
+    # leaf index kernel of the join fusion, decided by Kani over all indices (engine K)
+    import kcheck
+    from kspecs import SPECS
+    kr = kcheck.run_harnesses("C05", SPECS["C05K"], run.tier, build=False)
+    run.violations.extend(kr["violations"])
+    run.known.extend(kr["known"])
+    run.inconclusive.extend(kr["inconclusive"])
     return run.finish("translation_validation",
                       {"explanation": "each real rewrite pass is applied through its entry point to plans built by the real IR "
                                       "builder; before/after plans are compared as relations over symbolic tables",
-                       "passes": PASSES},
+                       "passes": PASSES,
+                       "kani_kernel": {"functions_encoded": SPECS["C05K"]["functions"], "bounds": SPECS["C05K"]["bounds"],
+                                       "harnesses": kr["samples"], "cbmc_checks": kr["checks_total"],
+                                       "solver_s": round(kr["solver_s"], 1)}},
                       ASSUME_P + ["derived relations scanned by a plan are free symbolic tables (any content)"])
 
 
